@@ -79,6 +79,9 @@ func runC12(c *fw.Ctx, cs fw.Case) {
 				depth = 0 // the root itself is the horizon: the whole search is one (interruptible) quiescence search
 				c.Count("depth0_searches", 1)
 			}
+			if cfg.posDetermined && depth > 0 {
+				depth = ttSafeDepth(h, depth) // with a table: no repetition draw inside the tree (C11's scope)
+			}
 			s, _, _ := cfg.mk()
 			useTT := cfg.posDetermined
 			variant := r.Intn(7)
